@@ -357,7 +357,7 @@ def misuse_checks():
                 res.append((f'unfitted {nm}.{meth}', 'ok'))
             except Exception as e:
                 res.append((f'unfitted {nm}.{meth}', f'{type(e).__name__}: {e}'))
-        bad_tables = {'empty': pd.DataFrame({'a': [], 'b': []}), 'non-numeric': pd.DataFrame({'a': ['x', 'y', 'z'], 'b': [1.0, 2.0, 3.0]}),
+        bad_tables = {'empty': pd.DataFrame({'a': [], 'b': []}), 'rows but no columns': pd.DataFrame(index=range(3)), 'non-numeric': pd.DataFrame({'a': ['x', 'y', 'z'], 'b': [1.0, 2.0, 3.0]}),
                       'NaN': pd.DataFrame({'a': [1.0, np.nan, 3.0], 'b': [1.0, 2.0, 4.0]})}
         for tn, t in bad_tables.items():
             m = mk()
